@@ -416,8 +416,10 @@ theorem parseFormatEnc_good (cfg : Cfg) (prev : Nat) (s : St) (src : Src) :
     · rename_i c s1 src1 h
       have he := nextvis_eq_elems h
       split
-      · rw [← he]; exact encOption_good _ _ _ _
-      · rw [← he]; exact encSection_good _ _ _
+      · exact Or.inr (Or.inr ⟨Or.inl rfl, he⟩)
+      · split
+        · rw [← he]; exact encOption_good _ _ _ _
+        · rw [← he]; exact encSection_good _ _ _
 
 /-! ### `mpt_parse_format_sep` -/
 def SepExit.st : SepExit → St
